@@ -5087,10 +5087,19 @@ set_trait_post_setattr(trait_object *trait, PyObject *value, void *closure)
 
     if (value == Py_None) {
         value = NULL;
-        trait->post_setattr = NULL;
     }
-    else {
-        trait->post_setattr = post_setattr_trait_python;
+
+    /* For a validated property the C-level 'post_setattr' slot holds the
+       property setter called by 'setattr_validate_property' (see
+       '_trait_set_property'): leave it alone. Properties never call a
+       'post_setattr' handler. */
+    if (trait->setattr != setattr_validate_property) {
+        if (value == NULL) {
+            trait->post_setattr = NULL;
+        }
+        else {
+            trait->post_setattr = post_setattr_trait_python;
+        }
     }
 
     return set_value(&trait->py_post_setattr, value);
